@@ -247,8 +247,12 @@ def make_named_module(src, name):
     scope["__file__"] = filename
     scope["__loader__"] = analysis_lib._FakeLoader(src)
     linecache.lazycache(filename, scope)
-    exec(compile(src, filename, "exec"), scope)
-    sys.modules[name] = mod
+    sys.modules[name] = mod  # before exec: dataclasses look the module up while the class is built
+    try:
+        exec(compile(src, filename, "exec"), scope)
+    except BaseException:
+        sys.modules.pop(name, None)
+        raise
     return mod
 
 
